@@ -268,6 +268,7 @@ def main(ctx):
     return rep
 
 
+
 def mixed_cases(ctx):
     from ecdsa import curves as cv
     groups = []
@@ -282,5 +283,20 @@ def mixed_cases(ctx):
                     items.append(("real", dict(curve=nm, d=d, k=k,
                                                digest=b"\x42" * 20, dec=dec,
                                                allow_truncate=True)))
+        groups.append(items)
+    # user-defined cofactor-1 curves over the SAME field prime, all nonces:
+    # many x-coordinates are shared between the two curves
+    same_p = {}
+    for t in catalog.all_toys():
+        if t.h == 1 and 101 <= t.p < 400:
+            same_p.setdefault(t.p, []).append(t)
+    pairs = [v[:2] for v in same_p.values() if len(v) >= 2][:3]
+    for (ta, tb) in pairs:
+        items = []
+        for t in (ta, tb):
+            for k in range(1, t.n, 2):
+                items.append(("toy", dict(rec=t.rec(), d=3, k=k,
+                                          digest=b"\x21", dec="string",
+                                          allow_truncate=True)))
         groups.append(items)
     return groups
